@@ -84,7 +84,7 @@ func ruleC12(r *Report) {
 	r.NotDecided("that the IdP accepts every produced request; XML well-formedness of the produced documents; byte-for-byte relay-state round trip through url.QueryEscape (standard library semantics)")
 	r.Rule("C12.query", "every string stored into a URL's RawQuery by the message builders is a concatenation of constants, the endpoint's existing query, url.QueryEscape results and url.Values.Encode results (no raw caller-controlled leaf)", 1)
 	r.Rule("C12.relay-guard", "the relay state is emitted unchanged, as one parameter, under no guard other than relayState != \"\" (redirect) and unconditionally in the POST forms", 4)
-	r.Rule("C12.close", "deflate and base64 writers are closed, inner first, before the encoded buffer is read; reader and writer use the same base64 alphabet", 3)
+	r.Rule("C12.close", "deflate and base64 writers are closed, inner first, before the encoded buffer is read; reader and writer use the same base64 alphabet", 1)
 	r.Rule("C12.ids", "every message ID is \"id-\" + hex of randomBytes(n) with constant n >= 16; randomBytes fills a fresh n-byte buffer with io.ReadFull from the configured RandReader and does not return on error", 4)
 	r.Rule("C12.fields", "request/logout message fields come from the documented sources (destination parameter, ACS URL, entity ID or metadata URL, name-ID format, ForceAuthn, RequestedAuthnContext, given IDs)", 8)
 	r.Rule("C12.escape", "the message builders serialise with canonical escaping and the attribute '>' escaper, so CR/TAB/LF and \"]]>\" in name IDs and attribute values survive parsing", 4)
@@ -136,78 +136,94 @@ func checkC12Query(r *Report, p *Prog) {
 		}
 		isRedirect := fn.Name() == "Redirect"
 		emitted := 0
-		for _, b := range fn.Blocks {
-			for _, in := range b.Instrs {
-				switch x := in.(type) {
-				case *ssa.Store:
-					fa, ok := x.Addr.(*ssa.FieldAddr)
-					if !ok || fieldName(fa.X.Type(), fa.Field) != "RawQuery" || !typeIs(fa.X.Type(), "net/url", "URL") {
-						continue
-					}
-					cons := fmt.Sprintf("%s: query string stored into the URL", p.FnName(fn))
-					bad := ""
-					for _, seq := range concatSeqs(x.Val, nil, 0) {
-						for i, lf := range seq {
-							k, d := queryLeafKind(fc, lf)
-							if k == "raw" {
-								bad = "raw leaf " + d
-							}
-							if k == "escaped" && d == rsAP && i > 0 {
-								if s, ok := constStr(seq[i-1]); ok && s == "&RelayState=" {
-									emitted++
-								}
-							}
+		// the builder with the unexported helpers it is split into (query assembly, signing of the query, a shared
+		// redirect-URL helper): values and conditions are followed through them
+		rg := NewRegion(p, fn, 2)
+		isRS := func(v RV) bool {
+			if rs == nil {
+				return false
+			}
+			for _, o := range rg.Origins(v) {
+				if o.V != ssa.Value(rs) {
+					return false
+				}
+			}
+			return true
+		}
+		rg.Each(func(xi RI) {
+			in := xi.I
+			b := in.Block()
+			xfc := rg.Ctx(a, xi.C)
+			xfc.ensureConds()
+			switch x := in.(type) {
+			case *ssa.Store:
+				fa, ok := x.Addr.(*ssa.FieldAddr)
+				if !ok || fieldName(fa.X.Type(), fa.Field) != "RawQuery" || !typeIs(fa.X.Type(), "net/url", "URL") {
+					return
+				}
+				cons := fmt.Sprintf("%s: query string stored into the URL", p.FnName(in.Parent()))
+				bad := ""
+				for _, seq := range rg.concatSeqs(RV{V: x.Val, C: xi.C}, nil, 0) {
+					for i, lf := range seq {
+						k, d := queryLeafKind(rg.Ctx(a, lf.C), lf.V)
+						if k == "raw" {
+							bad = "raw leaf " + d
 						}
-					}
-					r.Check(bad == "", "C12.query", cons, p.InstrPos(in), "constants, existing query, QueryEscape/Encode results only", "the query string contains a "+bad+": URL metacharacters in it inject or truncate parameters")
-				case *ssa.Call:
-					// query.Set("RelayState", x)
-					if calleeIs(x, "(net/url.Values).Set") {
-						if k, ok := constStr(x.Call.Args[1]); ok && k == "RelayState" {
-							emitted++
-							val := x.Call.Args[2]
-							cons := fmt.Sprintf("%s: RelayState parameter set", p.FnName(fn))
-							okV := rs != nil && val == ssa.Value(rs)
-							okG := relayGuardOnly(fc, a, b, rsAP)
-							r.Check(okV && okG == "", "C12.relay-guard", cons, p.InstrPos(in), "the caller's relay state, guarded only by != \"\"", relayWhy(okV, okG, fc.AP(val)))
-						}
-					}
-				case *ssa.BinOp:
-					if x.Op == token.ADD {
-						if s, ok := constStr(x.Y); ok && s == "&RelayState=" {
-							cons := fmt.Sprintf("%s: RelayState parameter appended", p.FnName(fn))
-							okG := relayGuardOnly(fc, a, b, rsAP)
-							// what follows must be QueryEscape(relayState)
-							okV := false
-							for _, rf := range *x.Referrers() {
-								if bo, ok := rf.(*ssa.BinOp); ok && bo.Op == token.ADD && bo.X == ssa.Value(x) {
-									if k, d := queryLeafKind(fc, bo.Y); k == "escaped" && d == rsAP {
-										okV = true
-									}
-								}
+						if k == "escaped" && i > 0 && isRS(RV{V: lf.V.(*ssa.Call).Call.Args[0], C: lf.C}) {
+							if s, ok := constStr(seq[i-1].V); ok && s == "&RelayState=" {
+								emitted++
 							}
-							r.Check(okV && okG == "", "C12.relay-guard", cons, p.InstrPos(in), "QueryEscape(relayState), guarded only by != \"\"", relayWhy(okV, okG, "the value following &RelayState="))
 						}
 					}
 				}
+				r.Check(bad == "", "C12.query", cons, p.InstrPos(in), "constants, existing query, QueryEscape/Encode results only", "the query string contains a "+bad+": URL metacharacters in it inject or truncate parameters")
+			case *ssa.Call:
+				// query.Set("RelayState", x)
+				if calleeIs(x, "(net/url.Values).Set") {
+					if k, ok := constStr(x.Call.Args[1]); ok && k == "RelayState" {
+						emitted++
+						val := x.Call.Args[2]
+						cons := fmt.Sprintf("%s: RelayState parameter set", p.FnName(in.Parent()))
+						okV := isRS(RV{V: val, C: xi.C})
+						okG := relayGuardOnly(xfc, a, b, rsAP)
+						r.Check(okV && okG == "", "C12.relay-guard", cons, p.InstrPos(in), "the caller's relay state, guarded only by != \"\"", relayWhy(okV, okG, xfc.AP(val)))
+					}
+				}
+			case *ssa.BinOp:
+				if x.Op == token.ADD {
+					if s, ok := constStr(x.Y); ok && s == "&RelayState=" {
+						cons := fmt.Sprintf("%s: RelayState parameter appended", p.FnName(in.Parent()))
+						okG := relayGuardOnly(xfc, a, b, rsAP)
+						// what follows must be QueryEscape(relayState)
+						okV := false
+						for _, rf := range *x.Referrers() {
+							if bo, ok := rf.(*ssa.BinOp); ok && bo.Op == token.ADD && bo.X == ssa.Value(x) {
+								if c, ok := bo.Y.(*ssa.Call); ok && calleeIs(c, "net/url.QueryEscape") && isRS(RV{V: c.Call.Args[0], C: xi.C}) {
+									okV = true
+								}
+							}
+						}
+						r.Check(okV && okG == "", "C12.relay-guard", cons, p.InstrPos(in), "QueryEscape(relayState), guarded only by != \"\"", relayWhy(okV, okG, "the value following &RelayState="))
+					}
+				}
 			}
-		}
+		})
 		if isRedirect {
 			r.Check(emitted > 0, "C12.relay-guard", fmt.Sprintf("%s: relay state is emitted", p.FnName(fn)), p.Pos(fn.Pos()), "RelayState parameter present", "the redirect builder never emits the relay state")
 		} else {
 			// POST: template data field RelayState <- the parameter, unconditionally
 			okP := false
-			for _, b := range fn.Blocks {
-				for _, in := range b.Instrs {
-					st, ok := in.(*ssa.Store)
-					if !ok {
-						continue
-					}
-					if fa, ok := st.Addr.(*ssa.FieldAddr); ok && fieldName(fa.X.Type(), fa.Field) == "RelayState" && rs != nil && st.Val == ssa.Value(rs) && !mentions(B, fc.Cond(b), rsAP) {
-						okP = true
-					}
+			rg.Each(func(xi RI) {
+				st, ok := xi.I.(*ssa.Store)
+				if !ok {
+					return
 				}
-			}
+				xfc := rg.Ctx(a, xi.C)
+				xfc.ensureConds()
+				if fa, ok := st.Addr.(*ssa.FieldAddr); ok && fieldName(fa.X.Type(), fa.Field) == "RelayState" && isRS(RV{V: st.Val, C: xi.C}) && !mentions(B, xfc.AbsCond(st.Block()), rsAP) {
+					okP = true
+				}
+			})
 			// or passed on to a helper unchanged
 			if !okP && rs != nil {
 				for _, rf := range *rs.Referrers() {
@@ -237,7 +253,7 @@ func relayGuardOnly(fc *FuncCtx, a *Analysis, b *ssa.BasicBlock, rsAP string) st
 	if rsAP == "" {
 		return "no relay-state parameter"
 	}
-	for _, name := range a.B.Support(fc.Cond(b)) {
+	for _, name := range a.B.Support(fc.AbsCond(b)) {
 		if !strings.Contains(name, rsAP) {
 			continue
 		}
@@ -344,7 +360,20 @@ func checkC12IDs(r *Report, p *Prog) {
 				cons := fmt.Sprintf("%s: %s.ID", p.FnName(fn), tn)
 				ok := false
 				detail := fc.AP(st.Val)
-				if c, okc := st.Val.(*ssa.Call); okc && calleeIs(c, "fmt.Sprintf") {
+				// the ID may be minted by a small helper of the package: judged at what the helper returns
+				idv := st.Val
+				for d := 0; d < 2; d++ {
+					hc, okh := idv.(*ssa.Call)
+					if !okh || hc.Call.StaticCallee() == nil || !p.InLibrary(hc.Call.StaticCallee()) || len(hc.Call.Args) != 0 {
+						break
+					}
+					ret := singleReturn(hc.Call.StaticCallee())
+					if ret == nil || len(ret.Results) != 1 {
+						break
+					}
+					idv = ret.Results[0]
+				}
+				if c, okc := idv.(*ssa.Call); okc && calleeIs(c, "fmt.Sprintf") {
 					if f, okf := constStr(c.Call.Args[0]); okf && f == "id-%x" {
 						// the single vararg is randomBytes(n)
 						for _, lf := range rootLeaves(c.Call.Args[1], map[ssa.Value]bool{}) {
